@@ -233,7 +233,12 @@ fn enumerate(_tier: Tier, idx: u32, of: u32, cx: &mut Cx) -> CaseResult {
     // Blocks of 40 MiB and 33 MiB + 1 (64 MiB block size): the second version carries them
     // over from the first; both keep restoring.
     // ... and a tree whose single index hunk exceeds 32 MiB (10 000 files with 3.3 KB paths)
-    for (name, (opts, tree)) in [("huge-blocks", crate::probes::huge_block_tree()), ("big-hunk", crate::probes::big_hunk_tree())] {
+    // ... and a block size of 1 500 000 bytes
+    for (name, (opts, tree)) in [
+        ("huge-blocks", crate::probes::huge_block_tree()),
+        ("big-hunk", crate::probes::big_hunk_tree()),
+        ("odd-block-size", crate::probes::odd_block_size_tree()),
+    ] {
         let sub = cx.dir(name);
         std::fs::create_dir_all(sub.join("r")).unwrap();
         let mut cx3 = crate::engine::sub_cx(cx, sub.clone());
